@@ -210,9 +210,29 @@ def check(ctx):
         ctx.require(R4, any(x.is_("acmed::config::Certificate::get_identifiers") for x in sl.calls) and not shrinkers_in(sl), where(mel, i),
                     "Certificate.identifiers = crt.get_identifiers() (whole list)", ["MainEventLoop::new", "identifiers"])
     gi = prog.must_body("acmed::config::Certificate::get_identifiers")
-    sl = origins(gi, {"l": 0, "p": []}, through=True)
-    ctx.require(R4, ("acmed::config::Certificate", "identifiers") in sl.fields and any(x.is_("acmed::config::Identifier::to_generic") for x in sl.calls) and not shrinkers_in(sl),
-                "%s:%s" % (gi.file, gi.line), "get_identifiers converts every configured identifier with to_generic, in order", ["config::Certificate::get_identifiers", "all"])
+    # evaluation-first: three configured identifiers A, B, C -> Ok([to_generic(A), to_generic(B), to_generic(C)])
+    cv = struct_val(prog, "acmed::config::Certificate", {"identifiers": Val("list", [marker("A"), marker("B"), marker("C")])})
+
+    def gen_model(cs, args):
+        if (cs.name or "").endswith("config::Identifier::to_generic") and args:
+            return ok(Val("unknown", "G(%r)" % args[0].deref()))
+        return None
+    got = None
+    try:
+        r = run(gi, {1: Val("ref", cv)}, gen_model, max_steps=20000)
+        if r.kind == "return" and r.ret is not None:
+            rv = r.ret.deref()
+            if rv.k == "adt" and rv.extra and rv.extra[1] == "Ok" and rv.v and rv.v[0].deref().k == "list":
+                got = [repr(x.deref()) for x in rv.v[0].deref().v]
+    except Exception:
+        got = None
+    if got is not None:
+        ctx.require(R4, got == ["?G(?A)", "?G(?B)", "?G(?C)"], "%s:%s" % (gi.file, gi.line), "get_identifiers converts every configured identifier with to_generic, in order (A, B, C -> %s)" % got,
+                    ["config::Certificate::get_identifiers", "all"])
+    else:
+        sl = origins(gi, {"l": 0, "p": []}, through=True)
+        ctx.require(R4, ("acmed::config::Certificate", "identifiers") in sl.fields and any(x.is_("acmed::config::Identifier::to_generic") for x in sl.calls) and not shrinkers_in(sl),
+                    "%s:%s" % (gi.file, gi.line), "get_identifiers converts every configured identifier with to_generic, in order", ["config::Certificate::get_identifiers", "all"])
 
     csr_internals(ctx)
 
@@ -310,13 +330,37 @@ def csr_internals(ctx):
     fields = prog.adt_fields("acmed::config::SubjectAttributes")
     ctx.floor(R5, "fields of config::SubjectAttributes", len(fields), 15)
     pairs = {}
-    for c in tg.calls_to("std::collections::hash::map::HashMap::insert"):
-        k = arg_origins(c, 1)
-        v = arg_origins(c, 2, stop_adts=("acmed::config::SubjectAttributes",))
-        vf = {f for a, f in v.fields if a == "acmed::config::SubjectAttributes"}
-        kv = {x.get("variant") for x in k.consts if x.get("variant")} | {l.rsplit("::", 1)[1] for l in k.leaves if l.startswith("const:") and "SubjectAttribute" in l}
-        for f in vf:
-            pairs.setdefault(f, set()).update(kv)
+    # evaluation-first: every field set to a distinct marker -> the (attribute, value) pairs of the resulting map
+    evaluated = False
+    try:
+        sv = struct_val(prog, "acmed::config::SubjectAttributes", {f: some(marker("F_" + f)) for f in fields})
+        r = run(tg, {1: Val("ref", sv)}, None, max_steps=60000)
+        rv = r.ret.deref() if r.kind == "return" and r.ret is not None else None
+        if rv is not None and rv.k == "list" and rv.extra == "map" and all(x.deref().k == "tuple" and x.deref().v[0].deref().k == "variant" for x in rv.v):
+            evaluated = True
+            for x in rv.v:
+                kx, vx = x.deref().v[0].deref(), repr(x.deref().v[1].deref())
+                for f in fields:
+                    if vx == "?F_" + f:
+                        pairs.setdefault(f, set()).add(kx.v)
+            # and an unset field contributes nothing
+            sv0 = struct_val(prog, "acmed::config::SubjectAttributes", {f: NONE for f in fields})
+            r0 = run(tg, {1: Val("ref", sv0)}, None, max_steps=60000)
+            rv0 = r0.ret.deref() if r0.kind == "return" and r0.ret is not None else None
+            ctx.require(R5, rv0 is not None and rv0.k == "list" and not rv0.v, "%s:%s" % (tg.file, tg.line), "unset subject attributes contribute nothing to the CSR subject",
+                        ["config::SubjectAttributes::to_generic", "unset"])
+    except Exception:
+        evaluated = False
+    if not evaluated:
+        pairs = {}
+        pairs = {}
+        for c in tg.calls_to("std::collections::hash::map::HashMap::insert"):
+            k = arg_origins(c, 1)
+            v = arg_origins(c, 2, stop_adts=("acmed::config::SubjectAttributes",))
+            vf = {f for a, f in v.fields if a == "acmed::config::SubjectAttributes"}
+            kv = {x.get("variant") for x in k.consts if x.get("variant")} | {l.rsplit("::", 1)[1] for l in k.leaves if l.startswith("const:") and "SubjectAttribute" in l}
+            for f in vf:
+                pairs.setdefault(f, set()).update(kv)
     for f in fields:
         want = "".join(p.capitalize() for p in f.split("_")).replace("Pkcs9EmailAddress", "Pkcs9EmailAddress")
         ctx.require(R5, pairs.get(f) == {want}, "%s:%s" % (tg.file, tg.line), "subject_attributes.%s -> SubjectAttribute::%s (found %s)" % (f, want, sorted(pairs.get(f, []))),
